@@ -55,3 +55,39 @@ def step(thread):
     except Yield:
         return 'yield'
     return 'returned'
+
+
+class _Platform:
+    def __init__(self, version):
+        self._v = version
+
+    def get_protocol_version(self):
+        return self._v
+
+
+class MiniCF:
+    """The slice of a Crazyflie that packet-emitting helpers use. send_packet is the REAL Crazyflie.send_packet
+    (size check, lock, link) bound to this object; the link records what is sent."""
+    def __init__(self, version=10, needs_resending=False):
+        import threading
+        from cflib.utils.callbacks import Caller
+        self.link = FakeLink(needs_resending)
+        self._send_lock = threading.Lock()
+        self._answer_patterns = {}
+        self.packet_sent = Caller()
+        self.platform = _Platform(version)
+        self.port_cbs = []
+
+    def send_packet(self, pk, expected_reply=(), resend=False, timeout=0.2):
+        from cflib.crazyflie import Crazyflie
+        return Crazyflie.send_packet(self, pk, expected_reply, resend, timeout)
+
+    def add_port_callback(self, port, cb):
+        self.port_cbs.append((port, cb))
+
+    def remove_port_callback(self, port, cb):
+        self.port_cbs.remove((port, cb))
+
+    @property
+    def sent(self):
+        return self.link.sent
